@@ -244,4 +244,724 @@ theorem rwList_frame (p : List String) (e : Stmt) (he : isAssign e = false) :
             · rw [Ctx.plug_appendPost, ← c2]; rfl
             · rw [Ctx.parent_appendPost]; exact c3
 end
+
+/-! ### once something was replaced, nothing else happens -/
+theorem vfd_replaced (p : List String) (par : Option String) (name : String) (args : Args) (rp : Repl) :
+    visitFunctionDef p par name args ⟨rp, true⟩ = .ok (args, ⟨rp, true⟩) := by
+  simp [visitFunctionDef]
+
+mutual
+theorem rwStmt_replaced (p : List String) (rp : Repl) :
+    ∀ (s : Stmt) (par : Option String), rwStmt p par s ⟨rp, true⟩ = .ok (s, ⟨rp, true⟩)
+  | .fn false name args body decos ret, par => by simp [rwStmt, vfd_replaced]
+  | .fn true name args body decos ret, par => by
+    simp [rwStmt, hits, rwList_replaced p rp body (some name)]
+  | .cls name bases kws body decos, par => by
+    simp [rwStmt, hits, rwList_replaced p rp body (some name)]
+  | .ann .., par | .assign .., par => by simp [rwStmt, hits]
+  | .strExpr .., par | .expr .., par | .other .., par => by simp [rwStmt]
+theorem rwList_replaced (p : List String) (rp : Repl) :
+    ∀ (l : List Stmt) (par : Option String), rwList p par l ⟨rp, true⟩ = .ok (l, ⟨rp, true⟩)
+  | [], par => by simp [rwList]
+  | s :: ss, par => by simp [rwList, rwStmt_replaced p rp s par, rwList_replaced p rp ss par]
+end
+
+/-! ### single-component paths: only top-level statements can match -/
+theorem loc_some_ne_single (x K : String) (s : Stmt) : (loc (some x) s == some [K]) = false := by
+  unfold loc
+  cases ownName s <;> simp
+
+theorem hits_nested_single (x K : String) (s : Stmt) (st : RwSt) : hits [K] (some x) s st = false := by
+  simp [hits, loc_some_ne_single]
+
+theorem vfd_single (K : String) (par : Option String) (name : String) (args : Args) (st : RwSt) :
+    visitFunctionDef [K] par name args st = .ok (args, st) := by
+  unfold visitFunctionDef
+  cases par <;> simp
+
+mutual
+theorem rwStmt_nested_single (K : String) (rp : Repl) :
+    ∀ (s : Stmt) (x : String) (r : Bool), rwStmt [K] (some x) s ⟨rp, r⟩ = .ok (s, ⟨rp, r⟩)
+  | .fn false name args body decos ret, x, r => by simp [rwStmt, vfd_single]
+  | .fn true name args body decos ret, x, r => by
+    simp [rwStmt, hits_nested_single, rwList_nested_single K rp body name r]
+  | .cls name bases kws body decos, x, r => by
+    simp [rwStmt, hits_nested_single, rwList_nested_single K rp body name r]
+  | .ann .., x, r | .assign .., x, r => by simp [rwStmt, hits_nested_single]
+  | .strExpr .., x, r | .expr .., x, r | .other .., x, r => by simp [rwStmt]
+theorem rwList_nested_single (K : String) (rp : Repl) :
+    ∀ (l : List Stmt) (x : String) (r : Bool), rwList [K] (some x) l ⟨rp, r⟩ = .ok (l, ⟨rp, r⟩)
+  | [], x, r => by simp [rwList]
+  | s :: ss, x, r => by simp [rwList, rwStmt_nested_single K rp s x r, rwList_nested_single K rp ss x r]
+end
+
+def isSyncFn : Stmt → Bool
+  | .fn false .. => true
+  | _ => false
+
+/-- `RewriteAtQuery` for a top-level path `[K]`: the first statement named `K` that is not a (non-async) `def` -/
+def rwTop (K : String) (e : Stmt) : List Stmt → List Stmt × Bool
+  | [] => ([], false)
+  | c :: rest =>
+    if !isSyncFn c && ownName c == some K then (e :: rest, true)
+    else (c :: (rwTop K e rest).1, (rwTop K e rest).2)
+
+theorem loc_none_single (K : String) (s : Stmt) : (loc none s == some [K]) = (ownName s == some K) := by
+  unfold loc
+  cases ownName s <;> simp
+
+theorem rwStmt_top_single (K : String) (e : Stmt) (c : Stmt) :
+    rwStmt [K] none c ⟨.stmt e, false⟩ =
+      if !isSyncFn c && ownName c == some K then .ok (e, ⟨.stmt e, true⟩) else .ok (c, ⟨.stmt e, false⟩) := by
+  cases c with
+  | fn a name args body decos ret =>
+    cases a
+    · simp [rwStmt, vfd_single, isSyncFn]
+    · simp only [rwStmt, hits, loc_none_single, isSyncFn]
+      by_cases h : ownName (Stmt.fn true name args body decos ret) == some K
+      · simp [h, putRepl]
+      · simp [h, rwList_nested_single]
+  | cls name bases kws body decos =>
+    simp only [rwStmt, hits, loc_none_single, isSyncFn]
+    by_cases h : ownName (Stmt.cls name bases kws body decos) == some K
+    · simp [h, putRepl]
+    · simp [h, rwList_nested_single]
+  | ann t a v =>
+    simp only [rwStmt, hits, loc_none_single, isSyncFn]
+    by_cases h : ownName (Stmt.ann t a v) == some K <;> simp [h, putRepl]
+  | assign ts v =>
+    simp only [rwStmt, hits, loc_none_single, isSyncFn]
+    by_cases h : ownName (Stmt.assign ts v) == some K <;> simp [h, putRepl]
+  | strExpr s => simp [rwStmt, isSyncFn, ownName]
+  | expr s => simp [rwStmt, isSyncFn, ownName]
+  | other s => simp [rwStmt, isSyncFn, ownName]
+
+theorem rwList_top_single (K : String) (e : Stmt) :
+    ∀ (l : List Stmt), rwList [K] none l ⟨.stmt e, false⟩ = .ok ((rwTop K e l).1, ⟨.stmt e, (rwTop K e l).2⟩)
+  | [] => by simp [rwList, rwTop]
+  | c :: rest => by
+    simp only [rwList, rwStmt_top_single, rwTop]
+    by_cases h : (!isSyncFn c && ownName c == some K) = true
+    · simp [h, rwList_replaced]
+    · simp [h, rwList_top_single K e rest]
+
+/-- `find_in_ast` for a top-level path `[K]`: the first statement that is named `K`, or is a (non-async) `def` with a
+    positional parameter `K` (then the `arg` is returned) -/
+def findTop (K : String) : List Stmt → Option Found
+  | [] => none
+  | c :: rest =>
+    if ownName c == some K then some (.stmt c)
+    else match c with
+      | .fn false _ args _ _ _ =>
+        match findArg K args.args 0 with
+        | some (i, a) => some (.arg a args.defaults[i]?)
+        | none => findTop K rest
+      | _ => findTop K rest
+
+
+theorem forLoop_single (K : String) :
+    ∀ (l : List Stmt) (st : LoopSt), st.cur = [] → st.query = K →
+      (∀ f, findTop K l = some f → forLoop [K] none l st = .ret f) ∧
+      (findTop K l = none → ∃ st', forLoop [K] none l st = .next st' ∧ st'.cur = [])
+  | [], st, hc, hq => by
+    simp [findTop, forLoop, hc]
+  | c :: rest, st, hc, hq => by
+    have ih := fun st' h1 h2 => forLoop_single K rest st' h1 h2
+    unfold forLoop findTop
+    simp only [loc_none_single]
+    by_cases h : (ownName c == some K) = true
+    · simp [h]
+    · simp only [h, if_false, Bool.false_eq_true]
+      cases c with
+      | fn a name args body decos ret =>
+        cases a
+        · simp only [hc, hq]
+          cases hf : findArg K args.args 0 with
+          | none =>
+            simp only
+            exact ih _ rfl rfl
+          | some ia =>
+            obtain ⟨i, a⟩ := ia
+            simp
+        · simp only [Stmt.defName?]
+          have hn : (name == st.query) = false := by
+            simp only [ownName] at h
+            rw [hq]; simpa using h
+          simp only [hn, if_false, Bool.false_eq_true]
+          exact ih _ hc hq
+      | cls name bases kws body decos =>
+        simp only [Stmt.defName?]
+        have hn : (name == st.query) = false := by
+          simp only [ownName] at h
+          rw [hq]; simpa using h
+        simp only [hn, if_false, Bool.false_eq_true]
+        exact ih _ hc hq
+      | ann t a v =>
+        have hn : (isName t && t == st.query) = false := by
+          rw [hq]
+          simp only [ownName] at h
+          by_cases hi : isName t = true
+          · simp only [hi, if_true] at h
+            simp [hi]; simpa using h
+          · simp [hi]
+        simp only [hn, if_false, Bool.false_eq_true]
+        exact ih _ hc hq
+      | assign ts v => simp only [Stmt.defName?]; exact ih _ hc hq
+      | strExpr s => simp only [Stmt.defName?]; exact ih _ hc hq
+      | expr s => simp only [Stmt.defName?]; exact ih _ hc hq
+      | other s => simp only [Stmt.defName?]; exact ih _ hc hq
+
+theorem findInAst_single (K : String) (m : Module) : findInAst [K] m = .ok (findTop K m) := by
+  unfold findInAst
+  simp only [List.isEmpty_cons, Bool.false_eq_true, if_false, List.length_cons, List.length_nil]
+  unfold whileLoop
+  simp only [List.isEmpty_nil, if_true]
+  obtain ⟨h1, h2⟩ := forLoop_single K m { query := K, cur := [], cursor := .stmts none m, child := none } rfl rfl
+  cases hf : findTop K m with
+  | some f => simp [h1 f hf]
+  | none =>
+    obtain ⟨st', e1, e2⟩ := h2 hf
+    simp only [e1]
+    unfold whileLoop
+    simp [e2]
+
+/-! ### `findTop` / `rwTop` algebra -/
+
+theorem findTop_none_names (K : String) : ∀ (l : List Stmt), findTop K l = none → ∀ c ∈ l, (ownName c == some K) = false
+  | [], _, c, hc => by cases hc
+  | d :: rest, h, c, hc => by
+    unfold findTop at h
+    by_cases hd : (ownName d == some K) = true
+    · simp [hd] at h
+    · simp only [hd, if_false, Bool.false_eq_true] at h
+      have hrest : findTop K rest = none := by
+        cases d with
+        | fn a name args body decos ret =>
+          cases a
+          · simp only at h
+            cases hf : findArg K args.args 0 with
+            | none => simpa [hf] using h
+            | some ia => simp [hf] at h
+          · simpa using h
+        | _ => simpa using h
+      rcases List.mem_cons.mp hc with rfl | hc'
+      · simpa using hd
+      · exact findTop_none_names K rest hrest c hc'
+
+theorem findTop_append (K : String) : ∀ (pre l : List Stmt), findTop K pre = none → findTop K (pre ++ l) = findTop K l
+  | [], l, _ => rfl
+  | d :: rest, l, h => by
+    unfold findTop at h
+    by_cases hd : (ownName d == some K) = true
+    · simp [hd] at h
+    · simp only [hd, if_false, Bool.false_eq_true] at h
+      simp only [List.cons_append, findTop, hd, if_false, Bool.false_eq_true]
+      cases d with
+      | fn a name args body decos ret =>
+        cases a
+        · simp only at h ⊢
+          cases hf : findArg K args.args 0 with
+          | none => simp only [hf] at h ⊢; exact findTop_append K rest l h
+          | some ia => simp [hf] at h
+        · simp only at h ⊢; exact findTop_append K rest l h
+      | _ => simp only at h ⊢; exact findTop_append K rest l h
+
+theorem findTop_split (K : String) (n : Stmt) : ∀ (l : List Stmt), findTop K l = some (.stmt n) →
+    ∃ pre post, l = pre ++ n :: post ∧ findTop K pre = none ∧ (ownName n == some K) = true
+  | [], h => by simp [findTop] at h
+  | d :: rest, h => by
+    unfold findTop at h
+    by_cases hd : (ownName d == some K) = true
+    · simp only [hd, if_true, Option.some.injEq, Found.stmt.injEq] at h
+      subst h
+      exact ⟨[], rest, rfl, rfl, hd⟩
+    · simp only [hd, if_false, Bool.false_eq_true] at h
+      have key : findTop K rest = some (.stmt n) ∧ findTop K [d] = none := by
+        cases d with
+        | fn a name args body decos ret =>
+          cases a
+          · simp only at h
+            cases hf : findArg K args.args 0 with
+            | none => simp only [hf] at h; exact ⟨h, by simp [findTop, hd, hf]⟩
+            | some ia => simp [hf] at h
+          · simp only at h; exact ⟨h, by simp [findTop, hd]⟩
+        | _ => simp only at h; exact ⟨h, by simp [findTop, hd]⟩
+      obtain ⟨pre, post, e1, e2, e3⟩ := findTop_split K n rest key.1
+      refine ⟨d :: pre, post, by simp [e1], ?_, e3⟩
+      have := findTop_append K [d] pre key.2
+      simpa using this.trans e2
+
+theorem findTop_hit (K : String) (c : Stmt) (rest : List Stmt) (h : (ownName c == some K) = true) :
+    findTop K (c :: rest) = some (.stmt c) := by
+  simp [findTop, h]
+
+theorem rwTop_no_names (K : String) (e : Stmt) : ∀ (l : List Stmt), (∀ c ∈ l, (ownName c == some K) = false) → rwTop K e l = (l, false)
+  | [], _ => rfl
+  | d :: rest, h => by
+    unfold rwTop
+    have hd := h d (List.mem_cons_self ..)
+    have hr := rwTop_no_names K e rest (fun c hc => h c (List.mem_cons_of_mem _ hc))
+    simp [hd, hr]
+
+theorem rwTop_append (K : String) (e : Stmt) : ∀ (pre l : List Stmt), (∀ c ∈ pre, (ownName c == some K) = false) →
+    rwTop K e (pre ++ l) = (pre ++ (rwTop K e l).1, (rwTop K e l).2)
+  | [], l, _ => rfl
+  | d :: rest, l, h => by
+    have hd := h d (List.mem_cons_self ..)
+    have hr := rwTop_append K e rest l (fun c hc => h c (List.mem_cons_of_mem _ hc))
+    simp only [List.cons_append, rwTop, hd, Bool.and_false, Bool.false_eq_true, if_false, hr]
+
+theorem rwTop_idem (K : String) (e : Stmt) (hn : (ownName e == some K) = true) (hs : isSyncFn e = false) :
+    ∀ (l : List Stmt), (rwTop K e l).2 = true → rwTop K e (rwTop K e l).1 = rwTop K e l
+  | [], h => by simp [rwTop] at h
+  | d :: rest, h => by
+    by_cases hd : (!isSyncFn d && ownName d == some K) = true
+    · simp only [rwTop, hd, if_true, hn, hs, Bool.not_false, Bool.and_self]
+    · simp only [rwTop, hd, if_false, Bool.false_eq_true] at h ⊢
+      rw [rwTop_idem K e hn hs rest h]
+
+theorem rwTop_true_has_name (K : String) (e : Stmt) (hn : (ownName e == some K) = true) :
+    ∀ (l : List Stmt), (rwTop K e l).2 = true → ∃ c ∈ (rwTop K e l).1, (ownName c == some K) = true
+  | [], h => by simp [rwTop] at h
+  | d :: rest, h => by
+    by_cases hd : (!isSyncFn d && ownName d == some K) = true
+    · simp only [rwTop, hd, if_true]
+      exact ⟨e, List.mem_cons_self .., hn⟩
+    · simp only [rwTop, hd, if_false, Bool.false_eq_true] at h ⊢
+      obtain ⟨c, hc, hk⟩ := rwTop_true_has_name K e hn rest h
+      exact ⟨c, List.mem_cons_of_mem _ hc, hk⟩
+
+theorem findTop_ne_none_of_name (K : String) (l : List Stmt) (h : ∃ c ∈ l, (ownName c == some K) = true) : findTop K l ≠ none := by
+  intro hf
+  obtain ⟨c, hc, hk⟩ := h
+  have := findTop_none_names K l hf c hc
+  rw [this] at hk; cases hk
+
+/-! ### statements about whole files -/
+
+/-- **Frame** between the old and the new content of a file for a target path `p`: nothing changed, or one statement
+    was appended, or exactly one node — whose `_location` is `p` — was replaced (everything else, at every nesting
+    depth, is the same statement at the same position) -/
+def Frame (p : List String) (m m' : Module) : Prop :=
+  m' = m ∨ (∃ e, m' = m ++ [e]) ∨
+  (∃ (ctx : Ctx) (old new : Stmt), m = ctx.plug old ∧ m' = ctx.plug new ∧ loc (ctx.parent none) old = some p)
+
+def FileFrame (p : List String) : Option Module → Option Module → Prop
+  | none, none => True
+  | none, some m' => ∃ e, m' = [e]
+  | some m, some m' => Frame p m m'
+  | some _, none => False
+
+theorem FileFrame.refl (p : List String) (f : Option Module) : FileFrame p f f := by
+  cases f
+  · trivial
+  · exact Or.inl rfl
+
+theorem isWanted_not_assign (k : Kind) (e : Stmt) (h : isWanted k e = true) : isAssign e = false := by
+  cases e <;> cases k <;> simp_all [isWanted, isAssign]
+
+theorem conform_frame' {IR : Type} (E : Emitters IR) (k : Kind) (p : List String) (ir : IR) (f f' : Option Module) (flag : Bool)
+    (h : conform E k p ir f = .ok (f', flag)) : FileFrame p f f' := by
+  cases f with
+  | none =>
+    simp only [conform] at h
+    split at h
+    · cases h
+    · cases h; exact ⟨_, rfl⟩
+  | some m =>
+    simp only [conform] at h
+    split at h
+    · cases h
+    · rename_i found hfound
+      split at h
+      · cases h
+      · rename_i ft hft
+        split at h
+        · cases h; exact Or.inr (Or.inl ⟨_, rfl⟩)
+        · rename_i orig
+          split at h
+          · cases h
+          · split at h
+            · cases h
+            · rename_i hw
+              split at h
+              · cases h; exact Or.inl rfl
+              · split at h
+                · cases h
+                · rename_i m' st hrw
+                  have hw' : isWanted k (E.emit k ir ft (optName k p)) = true := by simpa using hw
+                  obtain ⟨_, _, h3⟩ := rwList_frame p _ (isWanted_not_assign k _ hw') m none false m' st hrw
+                  split at h
+                  · rename_i hrep
+                    cases h
+                    rcases h3 rfl with ⟨hf, _⟩ | ⟨_, ctx, old, c1, c2, c3⟩
+                    · rw [hf] at hrep; cases hrep
+                    · exact Or.inr (Or.inr ⟨ctx, old, _, c1, c2, c3⟩)
+                  · cases h; exact Or.inl rfl
+
+/-- `_conform_filename` never deletes a file and never turns an existing file into a missing one -/
+theorem conform_some {IR : Type} (E : Emitters IR) (k : Kind) (p : List String) (ir : IR) (f f' : Option Module) (flag : Bool)
+    (h : conform E k p ir f = .ok (f', flag)) : ∃ m', f' = some m' := by
+  have := conform_frame' E k p ir f f' flag h
+  cases f with
+  | none =>
+    simp only [conform] at h
+    split at h
+    · cases h
+    · cases h; exact ⟨_, rfl⟩
+  | some m => cases f' <;> simp_all [FileFrame]
+
+/-- the assumptions about the black-box emitters / parsers (properties C02 and C08), and about the interface
+    equivalence `R` -/
+structure Laws {IR : Type} (E : Emitters IR) (R : IR → IR → Prop) : Prop where
+  refl : ∀ a, R a a
+  trans : ∀ a b c, R a b → R b c → R a c
+  /-- C02: parsing an emitted node gives back the interface -/
+  roundTrip : ∀ k ir ft n ft' n', R (E.parse k (E.emit k ir ft n) ft' n') ir
+  /-- C08: equivalent interfaces are emitted identically (one conversion round is a fixpoint) -/
+  emitCongr : ∀ k ir ir' ft n, R ir ir' → E.emit k ir ft n = E.emit k ir' ft n
+  /-- the emitted definition carries the requested name … -/
+  emitName : ∀ k ir ft n, (E.emit k ir ft n).defName? = some n
+  /-- … and is a `ClassDef` for the class kind, a (non-async) `FunctionDef` for the two function kinds -/
+  emitKind : ∀ k ir ft n, isWanted k (E.emit k ir ft n) = true
+
+theorem ownName_of_wanted (k : Kind) (e : Stmt) (n : String) (hw : isWanted k e = true) (hn : e.defName? = some n) :
+    (ownName e == some n) = true := by
+  cases e <;> cases k <;> simp_all [isWanted, ownName, Stmt.defName?]
+
+theorem isSyncFn_of_wanted_cls (e : Stmt) (hw : isWanted .cls e = true) : isSyncFn e = false := by
+  cases e <;> simp_all [isWanted, isSyncFn]
+
+theorem isSyncFn_of_wanted_fn (k : Kind) (e : Stmt) (hk : k ≠ .cls) (hw : isWanted k e = true) : isSyncFn e = true := by
+  cases e with
+  | fn a _ _ _ _ _ => cases a <;> cases k <;> simp_all [isWanted, isSyncFn]
+  | _ => cases k <;> simp_all [isWanted]
+
+/-- `_conform_filename` for a top-level target, in terms of the two first-match functions -/
+theorem conform_single {IR : Type} (E : Emitters IR) (k : Kind) (K : String) (ir : IR) (m : Module) :
+    conform E k [K] ir (some m) =
+      match optFunctionType k (findTop K m) with
+      | .error e => .error e
+      | .ok ft =>
+        match findTop K m with
+        | none => .ok (some (m ++ [E.emit k ir ft K]), true)
+        | some orig =>
+          if !isWanted k (E.emit k ir ft K) then .error (.assertion "Expected type_wanted")
+          else if cmpFound orig (E.emit k ir ft K) then .ok (some m, false)
+          else if (rwTop K (E.emit k ir ft K) m).2 then .ok (some (rwTop K (E.emit k ir ft K) m).1, true)
+          else .ok (some m, false) := by
+  simp only [conform, findInAst_single, rwList_top_single, optName, List.getLast?_singleton, List.isEmpty_cons,
+    Bool.false_eq_true, if_false]
+  cases optFunctionType k (findTop K m) with
+  | error e => rfl
+  | ok ft =>
+    simp only
+    cases findTop K m with
+    | none => rfl
+    | some orig => rfl
+
+variable {IR : Type}
+
+/-- the named target of `file` holds an interface equivalent to `ir` -/
+def Holds (E : Emitters IR) (R : IR → IR → Prop) (k : Kind) (p : List String) (file : Option Module) (ir : IR) : Prop :=
+  ∃ ir', targetIR E k p file = .ok ir' ∧ R ir' ir
+
+theorem targetIR_single (E : Emitters IR) (k : Kind) (K : String) (m : Module) :
+    targetIR E k [K] (some m) =
+      match findTop K m with
+      | none => .error (.attributeError "target not found")
+      | some f =>
+        match optFunctionType k (some f) with
+        | .error e => .error e
+        | .ok ft =>
+          match f with
+          | .stmt s => if isWanted k s then .ok (E.parse k s ft K) else .error (.assertion "unexpected node type")
+          | _ => .error (.assertion "unexpected node type") := by
+  simp only [targetIR, findInAst_single, optName, List.getLast?_singleton]
+  cases findTop K m <;> rfl
+
+theorem cmpFound_eq (orig : Found) (e : Stmt) (h : cmpFound orig e = true) : orig = .stmt e := by
+  cases orig with
+  | stmt s =>
+    simp only [cmpFound] at h
+    rw [stmt_beq_eq s e h]
+  | _ => simp [cmpFound] at h
+
+theorem cmpFound_refl (e : Stmt) : cmpFound (.stmt e) e = true := by
+  simp only [cmpFound]
+  exact stmt_beq_refl e
+
+theorem optFunctionType_wanted (k : Kind) (e : Stmt) (hw : isWanted k e = true) : ∃ ft, optFunctionType k (some (.stmt e)) = .ok ft := by
+  cases k with
+  | cls => exact ⟨none, rfl⟩
+  | argparse =>
+    cases e with
+    | fn a n args b d r =>
+      cases a
+      · simp only [optFunctionType, functionType]
+        cases args.args with
+        | nil => exact ⟨_, rfl⟩
+        | cons x xs => by_cases hx : (x.name == "self" || x.name == "cls") = true <;> simp [hx]
+      · simp [isWanted] at hw
+    | _ => simp [isWanted] at hw
+  | function =>
+    cases e with
+    | fn a n args b d r =>
+      cases a
+      · simp only [optFunctionType, functionType]
+        cases args.args with
+        | nil => exact ⟨_, rfl⟩
+        | cons x xs => by_cases hx : (x.name == "self" || x.name == "cls") = true <;> simp [hx]
+      · simp [isWanted] at hw
+    | _ => simp [isWanted] at hw
+
+/-- a file whose top-level target `K` is the wanted node `e` holds `parse e` -/
+theorem holds_of_found (E : Emitters IR) (R : IR → IR → Prop) (k : Kind) (K : String) (m : Module) (e : Stmt) (ir : IR)
+    (hf : findTop K m = some (.stmt e)) (hw : isWanted k e = true) (hr : ∀ ft, R (E.parse k e ft K) ir) :
+    Holds E R k [K] (some m) ir := by
+  obtain ⟨ft, hft⟩ := optFunctionType_wanted k e hw
+  refine ⟨E.parse k e ft K, ?_, hr ft⟩
+  simp [targetIR_single, hf, hft, hw]
+
+/-- **class target, top-level path:** after `_conform_filename` the target is (a node equal to) the emission -/
+theorem conform_single_cls (E : Emitters IR) (R : IR → IR → Prop) (L : Laws E R) (K : String) (ir : IR) (m : Module) (n : Stmt)
+    (hf : findTop K m = some (.stmt n)) (hn : isWanted .cls n = true) :
+    ∃ m' flag, conform E .cls [K] ir (some m) = .ok (some m', flag) ∧ findTop K m' = some (.stmt (E.emit .cls ir none K)) := by
+  have hw := L.emitKind .cls ir none K
+  have hname := ownName_of_wanted .cls _ K hw (L.emitName .cls ir none K)
+  simp only [conform_single, hf, optFunctionType, hw, Bool.not_true, Bool.false_eq_true, if_false]
+  by_cases hc : cmpFound (.stmt n) (E.emit .cls ir none K) = true
+  · simp only [hc, if_true]
+    have := cmpFound_eq _ _ hc
+    simp only [Found.stmt.injEq] at this
+    exact ⟨m, false, rfl, by rw [hf, this]⟩
+  · simp only [hc, if_false, Bool.false_eq_true]
+    obtain ⟨pre, post, e1, e2, e3⟩ := findTop_split K n m hf
+    have hpre := findTop_none_names K pre e2
+    have hns : isSyncFn n = false := isSyncFn_of_wanted_cls n hn
+    have hrw : rwTop K (E.emit .cls ir none K) m = (pre ++ E.emit .cls ir none K :: post, true) := by
+      rw [e1, rwTop_append K _ pre _ hpre]
+      simp [rwTop, hns, e3]
+    simp only [hrw, if_true]
+    refine ⟨_, true, rfl, ?_⟩
+    rw [findTop_append K pre _ e2, findTop_hit K _ post hname]
+
+/-- **target not in the file (empty file included), top-level path:** the emission is appended and is then found -/
+theorem conform_single_append (E : Emitters IR) (R : IR → IR → Prop) (L : Laws E R) (k : Kind) (K : String) (ir : IR) (m : Module)
+    (hf : findTop K m = none) :
+    conform E k [K] ir (some m) = .ok (some (m ++ [E.emit k ir none K]), true) ∧
+      findTop K (m ++ [E.emit k ir none K]) = some (.stmt (E.emit k ir none K)) := by
+  have hw := L.emitKind k ir none K
+  have hname := ownName_of_wanted k _ K hw (L.emitName k ir none K)
+  have hft : optFunctionType k (none : Option Found) = .ok none := by cases k <;> rfl
+  refine ⟨by simp [conform_single, hf, hft], ?_⟩
+  rw [findTop_append K m _ hf, findTop_hit K _ [] hname]
+
+/-- **function kinds, top-level path:** whatever `_conform_filename` does, the found `FunctionDef` stays the found node -/
+theorem conform_single_fn_keeps (E : Emitters IR) (k : Kind) (K : String) (ir : IR) (m : Module) (n : Stmt)
+    (hf : findTop K m = some (.stmt n)) (hn : isSyncFn n = true) (f' : Option Module) (flag : Bool)
+    (h : conform E k [K] ir (some m) = .ok (f', flag)) : ∃ m', f' = some m' ∧ findTop K m' = some (.stmt n) := by
+  simp only [conform_single, hf] at h
+  split at h
+  · cases h
+  · split at h
+    · cases h
+    · split at h
+      · cases h; exact ⟨m, rfl, hf⟩
+      · split at h
+        · cases h
+          obtain ⟨pre, post, e1, e2, e3⟩ := findTop_split K n m hf
+          have hpre := findTop_none_names K pre e2
+          refine ⟨_, rfl, ?_⟩
+          rw [e1, rwTop_append K _ pre _ hpre]
+          simp only [rwTop, hn, Bool.not_true, Bool.false_and, Bool.false_eq_true, if_false]
+          rw [findTop_append K pre _ e2, findTop_hit K _ _ e3]
+        · cases h; exact ⟨m, rfl, hf⟩
+
+
+theorem conform_flag_false (E : Emitters IR) (k : Kind) (p : List String) (ir : IR) (f f' : Option Module)
+    (h : conform E k p ir f = .ok (f', false)) : f' = f := by
+  cases f with
+  | none =>
+    simp only [conform] at h
+    split at h <;> cases h
+  | some m =>
+    simp only [conform] at h
+    repeat' split at h
+    all_goals (cases h <;> rfl)
+
+theorem conform_congr (E : Emitters IR) (R : IR → IR → Prop) (L : Laws E R) (k : Kind) (p : List String) (ir ir' : IR) (m : Module)
+    (h : R ir ir') : conform E k p ir (some m) = conform E k p ir' (some m) := by
+  have hc : ∀ ft n, E.emit k ir ft n = E.emit k ir' ft n := fun ft n => L.emitCongr k ir ir' ft n h
+  simp only [conform, hc]
+
+/-- **idempotence of `_conform_filename`, top-level path** (same interface on both runs) -/
+theorem conform_single_idem (E : Emitters IR) (R : IR → IR → Prop) (L : Laws E R) (k : Kind) (K : String) (ir : IR) (m : Module)
+    (f' : Option Module) (flag : Bool) (h : conform E k [K] ir (some m) = .ok (f', flag))
+    (hc : k = .cls ∨ f' = some m ∨ findTop K m = none) : ∃ flag', conform E k [K] ir f' = .ok (f', flag') := by
+  -- (A) the file is as it was: the second run is the same computation
+  have caseA : f' = some m → ∃ flag', conform E k [K] ir f' = .ok (f', flag') := by
+    intro hfl; subst hfl
+    exact ⟨flag, h⟩
+  -- (B) the target was appended
+  have caseB : findTop K m = none → ∃ flag', conform E k [K] ir f' = .ok (f', flag') := by
+    intro hnone
+    obtain ⟨h1, h2⟩ := conform_single_append E R L k K ir m hnone
+    rw [h1] at h; cases h
+    have hw := L.emitKind k ir none K
+    obtain ⟨ft, hft⟩ := optFunctionType_wanted k _ hw
+    have hw' := L.emitKind k ir ft K
+    simp only [conform_single, h2, hft, hw', Bool.not_true, Bool.false_eq_true, if_false]
+    by_cases hcmp : cmpFound (.stmt (E.emit k ir none K)) (E.emit k ir ft K) = true
+    · simp [hcmp]
+    · simp only [hcmp, if_false, Bool.false_eq_true]
+      by_cases hk : k = .cls
+      · subst hk
+        simp only [optFunctionType, Except.ok.injEq] at hft
+        subst hft
+        exact absurd (cmpFound_refl _) hcmp
+      · have hs := isSyncFn_of_wanted_fn k _ hk hw
+        have : rwTop K (E.emit k ir ft K) (m ++ [E.emit k ir none K]) = (m ++ [E.emit k ir none K], false) := by
+          rw [rwTop_append K _ m _ (findTop_none_names K m hnone)]
+          simp [rwTop, hs]
+        simp [this]
+  rcases hc with hk | hfl | hnone
+  · subst hk
+    cases hfind : findTop K m with
+    | none => exact caseB hfind
+    | some orig =>
+      cases flag with
+      | false => exact caseA (conform_flag_false E .cls [K] ir _ _ h)
+      | true =>
+        have hw := L.emitKind .cls ir none K
+        have hname := ownName_of_wanted .cls _ K hw (L.emitName .cls ir none K)
+        have hns := isSyncFn_of_wanted_cls _ hw
+        simp only [conform_single, hfind, optFunctionType, hw, Bool.not_true, Bool.false_eq_true, if_false] at h
+        split at h
+        · cases h
+        · split at h
+          · rename_i hrw
+            cases h
+            -- second run on the rewritten module
+            have hne := findTop_ne_none_of_name K _ (rwTop_true_has_name K _ hname m hrw)
+            cases hfind1 : findTop K (rwTop K (E.emit .cls ir none K) m).1 with
+            | none => exact absurd hfind1 hne
+            | some orig1 =>
+              simp only [conform_single, hfind1, optFunctionType, hw, Bool.not_true, Bool.false_eq_true, if_false]
+              by_cases hcmp : cmpFound orig1 (E.emit .cls ir none K) = true
+              · simp [hcmp]
+              · simp only [hcmp, if_false, Bool.false_eq_true]
+                rw [rwTop_idem K _ hname hns m hrw]
+                simp [hrw]
+          · cases h
+  · exact caseA hfl
+  · exact caseB hnone
+
+/-! ### the loop of `ground_truth` -/
+
+theorem sync_ok (E : Emitters IR) (t : Kind) (tp : List String) (paths : Kind → List String) (s : Files)
+    (h : (sync E t tp paths s).err = none) :
+    ∃ ir fa ba fc bc ff bf,
+      targetIR E t tp (s.get t) = .ok ir ∧
+      conform E .argparse (paths .argparse) ir s.argparse = .ok (fa, ba) ∧
+      conform E .cls (paths .cls) ir s.cls = .ok (fc, bc) ∧
+      conform E .function (paths .function) ir s.function = .ok (ff, bf) ∧
+      (sync E t tp paths s).files = { argparse := fa, cls := fc, function := ff } ∧
+      (sync E t tp paths s).flags = [(.argparse, ba), (.cls, bc), (.function, bf)] := by
+  unfold sync at h
+  cases hir : targetIR E t tp (s.get t) with
+  | error e => simp [hir] at h
+  | ok ir =>
+    simp only [hir] at h
+    simp only [kinds, syncLoop, Files.get, Files.set] at h
+    cases ha : conform E .argparse (paths .argparse) ir s.argparse with
+    | error e => simp [ha] at h
+    | ok ra =>
+      obtain ⟨fa, ba⟩ := ra
+      simp only [ha] at h
+      cases hc : conform E .cls (paths .cls) ir s.cls with
+      | error e => simp [hc] at h
+      | ok rc =>
+        obtain ⟨fc, bc⟩ := rc
+        simp only [hc] at h
+        cases hf : conform E .function (paths .function) ir s.function with
+        | error e => simp [hf] at h
+        | ok rf =>
+          obtain ⟨ff, bf⟩ := rf
+          refine ⟨ir, fa, ba, fc, bc, ff, bf, rfl, ha, hc, hf, ?_, ?_⟩
+          · simp only [sync, hir]
+            simp [kinds, syncLoop, Files.get, Files.set, ha, hc, hf]
+          · simp only [sync, hir]
+            simp [kinds, syncLoop, Files.get, Files.set, ha, hc, hf]
+
+theorem sync_of_ok (E : Emitters IR) (t : Kind) (tp : List String) (paths : Kind → List String) (s : Files)
+    (ir : IR) (fa fc ff : Option Module) (ba bc bf : Bool)
+    (h0 : targetIR E t tp (s.get t) = .ok ir)
+    (h1 : conform E .argparse (paths .argparse) ir s.argparse = .ok (fa, ba))
+    (h2 : conform E .cls (paths .cls) ir s.cls = .ok (fc, bc))
+    (h3 : conform E .function (paths .function) ir s.function = .ok (ff, bf)) :
+    sync E t tp paths s = { files := { argparse := fa, cls := fc, function := ff },
+                            flags := [(.argparse, ba), (.cls, bc), (.function, bf)], err := none } := by
+  simp only [sync, h0]
+  simp [kinds, syncLoop, Files.get, Files.set, h1, h2, h3]
+
+/-- the files of a run, whatever happens: each one is the old file or the result of `_conform_filename` on it -/
+theorem sync_files (E : Emitters IR) (t : Kind) (tp : List String) (paths : Kind → List String) (s : Files) (k : Kind) :
+    (sync E t tp paths s).files.get k = s.get k ∨
+      ∃ ir flag, conform E k (paths k) ir (s.get k) = .ok ((sync E t tp paths s).files.get k, flag) := by
+  unfold sync
+  cases hir : targetIR E t tp (s.get t) with
+  | error e => exact Or.inl rfl
+  | ok ir =>
+    simp only [kinds, syncLoop, Files.get, Files.set]
+    cases ha : conform E .argparse (paths .argparse) ir s.argparse with
+    | error e => exact Or.inl rfl
+    | ok ra =>
+      obtain ⟨fa, ba⟩ := ra
+      simp only
+      cases hc : conform E .cls (paths .cls) ir s.cls with
+      | error e =>
+        cases k
+        · exact Or.inr ⟨ir, ba, ha⟩
+        · exact Or.inl rfl
+        · exact Or.inl rfl
+      | ok rc =>
+        obtain ⟨fc, bc⟩ := rc
+        simp only
+        cases hf : conform E .function (paths .function) ir s.function with
+        | error e =>
+          cases k
+          · exact Or.inr ⟨ir, ba, ha⟩
+          · exact Or.inr ⟨ir, bc, hc⟩
+          · exact Or.inl rfl
+        | ok rf =>
+          obtain ⟨ff, bf⟩ := rf
+          cases k
+          · exact Or.inr ⟨ir, ba, ha⟩
+          · exact Or.inr ⟨ir, bc, hc⟩
+          · exact Or.inr ⟨ir, bf, hf⟩
+
+/-! ### Boolean checks for the concrete witnesses (`Stmt` and `Except` have no `DecidableEq`) -/
+def irIs (r : Except Err (List String)) (l : List String) : Bool :=
+  match r with
+  | .ok x => x == l
+  | .error _ => false
+
+theorem irIs_eq {r : Except Err (List String)} {l : List String} (h : irIs r l = true) : r = .ok l := by
+  cases r with
+  | ok x => simp only [irIs, beq_iff_eq] at h; rw [h]
+  | error e => simp [irIs] at h
+
+def fileIs (f : Option Module) (m : Module) : Bool :=
+  match f with
+  | some x => beqList x m
+  | none => false
+
+theorem fileIs_eq {f : Option Module} {m : Module} (h : fileIs f m = true) : f = some m := by
+  cases f with
+  | some x => simp only [fileIs] at h; rw [beqList_eq x m h]
+  | none => simp [fileIs] at h
+
+theorem isNone_eq {α : Type} {o : Option α} (h : o.isNone = true) : o = none := by
+  cases o <;> simp_all
 end Sync
